@@ -40,7 +40,7 @@ PROP = Prop(
          "(key 0..MaxKey) and every `not top level` definition that has an encoder (MessageV0/V1, Header, Record, RecordBatch, the "
          "__consumer_offsets/__transaction_state key/value types, member metadata/assignment types, control records, "
          "StickyMemberMetadata); embedded anonymous and `no encoding` structs are covered inside their parents. Versions 0..max "
-         "(types with their own Version field: -1..6 and 32767). Values are filled by reflection from the seed in 7 flavours per "
+         "(types with their own Version field: 0..6 and 32767). Values are filled by reflection from the seed in 7 flavours per "
          "type-version: all defaults; random; nil slices/pointers; empty non-nil; boundary ints; compact-length boundaries "
          "126/127/128/129/16382/16383/16384 on strings, bytes and arrays; unknown tags (keys 64..2^32-1, boundary payload lengths) "
          "on any struct that has UnknownTags; fields absent at the version are filled too. non-trivial = the value tree has a "
